@@ -140,7 +140,7 @@ def run_c19(ctx):
             srec.append(step_rec(st, lines=True))
         recs.append({"rel": "C19", "id": s["id"], "scen": sc, "steps": srec})
     bad = judge_all(ctx, recs)
-    st = selftest(ctx, recs, "C19")
+    st = selftest(ctx, [r for i, r in enumerate(recs) if i not in set(bad)], "C19")
     report_bad(ctx, "C19", bad, recs, scen, lambda i: "action=%s kind=%s cwd=%s gitignore=%s: changed paths %s (exit %s)" % (
         meta[i]["action"], meta[i]["kind"], meta[i]["cwd"], meta[i]["gitignore"], changed_paths(recs[i]["steps"][-1]), recs[i]["steps"][-1]["exit"]),
         lambda i: "%s/%s/%s" % (meta[i]["action"], meta[i]["kind"], meta[i]["cwd"]))
@@ -204,7 +204,7 @@ def run_c09(ctx):
             steps.append(step_rec(st, extra={"mentioned": [t["name"] for t in mt["tasks"] if ('"%s"' % t["name"]) in text or (" %s " % t["name"]) in text]}))
         recs.append({"rel": "C09", "id": s["id"], "scen": {"tasks": mt["tasks"]}, "steps": steps})
     bad = judge_all(ctx, recs)
-    st = selftest(ctx, recs, "C09")
+    st = selftest(ctx, [r for i, r in enumerate(recs) if i not in set(bad)], "C09")
     report_bad(ctx, "C09", bad, recs, scen, lambda i: "req=%s flags=%s tasks=%s: exit=%s effects=%s second-run effects=%s" % (
         meta[i]["req"], meta[i]["flags"], [(t["name"], [c["fails"] for c in t["cmds"]]) for t in meta[i]["tasks"]], recs[i]["steps"][0]["exit"],
         recs[i]["steps"][0]["effects"], recs[i]["steps"][1]["effects"]), lambda i: "%s/%s" % (",".join(meta[i]["flags"]) or "plain", meta[i]["shape"]))
@@ -340,7 +340,7 @@ def run_c13(ctx):
               "cmds": [{"pieces": c["pieces"], "envname": c["envname"]} for c in mt["cmds"]]}
         recs.append({"rel": "C13", "id": s["id"], "scen": sc, "steps": [step_rec(st)], "json_ok": ok, "cmds": cmds, "stderr": st["stderr"][-300:]})
     bad = judge_all(ctx, recs)
-    st = selftest(ctx, recs, "C13")
+    st = selftest(ctx, [r for i, r in enumerate(recs) if i not in set(bad)], "C13")
     report_bad(ctx, "C13", bad, recs, scen, lambda i: "vars=%s: exit=%s observed cmds=%s %s" % (
         [(v["name"], v["kind"], v["val"] or v["args"] or v["cmd"]) for v in meta[i]["vars"]], recs[i]["steps"][0]["exit"], recs[i]["cmds"][:4], recs[i]["stderr"][-120:]),
         lambda i: "%s/%s" % ("+".join(sorted({v["kind"] for v in meta[i]["vars"]})), "+".join(sorted({"amb" if v["name"] in ("AMBV", "BOTHV") else ("dot" if v["name"] == "DOTV" else "fresh") for v in meta[i]["vars"]}))))
@@ -431,7 +431,7 @@ def run_c12(ctx):
         recs.append({"rel": "C12", "id": s["id"], "scen": {k: mt[k] for k in ("proj", "cwd", "hasClean", "designated", "designatedAlt", "degenerate", "cleanMarker")},
                      "steps": [step_rec(st)], "stderr": st["stderr"][-300:]})
     bad = judge_all(ctx, recs)
-    st = selftest(ctx, recs, "C12")
+    st = selftest(ctx, [r for i, r in enumerate(recs) if i not in set(bad)], "C12")
     report_bad(ctx, "C12", bad, recs, scen, lambda i: "outputs=%s cwd=%s clean-task=%s: exit=%s removed/changed=%s %s" % (
         meta[i]["kinds"], "/".join(meta[i]["cwd"]), meta[i]["hasClean"], recs[i]["steps"][0]["exit"], changed_paths(recs[i]["steps"][0])[:12], recs[i]["stderr"][-160:]),
         lambda i: "%s/%s/%s" % ("+".join(sorted(set(meta[i]["kinds"]))), "nested" if len(meta[i]["cwd"]) > 1 else "root", "cleantask" if meta[i]["hasClean"] else "builtin"))
@@ -532,7 +532,7 @@ def run_c20(ctx):
             views.append(v)
         recs.append({"rel": "C20", "id": s["id"], "scen": sc, "steps": steps, "views": views})
     bad = judge_all(ctx, recs, chunk=400)
-    st = selftest(ctx, recs, "C20")
+    st = selftest(ctx, [r for i, r in enumerate(recs) if i not in set(bad)], "C20")
 
     def desc(i):
         r = recs[i]
@@ -554,6 +554,8 @@ def sample_idx(ctx, recs, n):
 
 def selftest(ctx, recs, rel):
     """corrupt one recorded field: TLC must reject the corrupted record"""
+    if not recs:
+        return None
     good = json.loads(json.dumps(recs[0]))
     c = json.loads(json.dumps(recs[0]))
     for r in recs:
